@@ -237,7 +237,7 @@ func (o EOp) Line() string {
 			parts = append(parts, o.Custom)
 		}
 		if o.Ctx != nil {
-			parts = append(parts, "ctx", o.Ctx.RType, o.Ctx.PType, o.Ctx.EType, o.Ctx.MType)
+			parts = append(parts, "ctx", proto.Enc(o.Ctx.RType), proto.Enc(o.Ctx.PType), proto.Enc(o.Ctx.EType), proto.Enc(o.Ctx.MType))
 		}
 		for _, v := range o.Req {
 			parts = append(parts, v.Tok())
